@@ -1,6 +1,7 @@
 import CollectionsC.Driver.Cmd
 import CollectionsC.Spec.MapSpec
 import CollectionsC.Model.HashTable
+import CollectionsC.Model.PHash
 /-! Line-protocol driver for the hash-table model and the ideal map.  Also home of the pieces shared
 with the hash-set driver: the harness hash functions, the library's own hash functions (djb2,
 MurmurHash3 x86_32 and its pointer variant, transcribed so that the model can follow the real bucket
@@ -103,11 +104,106 @@ def fmtPtr (t : HashTable) (p : Option (Option Nat)) : String :=
   | none => "-"
   | some k => if t.buckets.flatten.any (fun e => e.key == k) then toString (HT.encKey k) else "x"
 
-def fmtTable (t : HashTable) (it : Option HIter) : String :=
+/-- `pe=[bucket:id:key:next,…]`: every chain of the pointer-level model with its raw links -/
+def fmtPe (pt : PHash.PTable) : String :=
+  let rec go (i : Nat) (bs : List (Option Nat)) : List String :=
+    match bs with
+    | [] => []
+    | p :: rest =>
+      ((PHash.chainIds pt.heap pt.fresh p).1.map fun id =>
+        let e := PHash.nd pt.heap id
+        s!"{i}:{id}:{HT.encKey e.key}:{match e.next with | some n => toString n | none => "-"}") ++ go (i + 1) rest
+  " pe=[" ++ ",".intercalate (go 0 (pt.buckets.take pt.capacity)) ++ "]"
+
+def fmtPid (pt : PHash.PTable) (p : Option Nat) : String :=
+  match p with
+  | none => "-"
+  | some id => if (pt.heap.get id).isSome then toString id else "x"
+
+def fmtTable (t : HashTable) (it : Option HIter) (pt : Option PHash.PTable := none) (pit : Option PHash.PIter := none) : String :=
   let base := s!"cap={t.capacity} size={t.size} thr={t.threshold} ents={fmtEnts t}"
-  match it with
+  let base := match it with
+    | none => base
+    | some i => base ++ s!" it={i.bucketIndex}/{fmtPtr t i.prev}/{fmtPtr t i.next}"
+  match pt with
   | none => base
-  | some i => base ++ s!" it={i.bucketIndex}/{fmtPtr t i.prev}/{fmtPtr t i.next}"
+  | some pt =>
+    base ++ fmtPe pt ++ (match pit with
+      | none => ""
+      | some i => s!" pit={i.bucketIndex}/{fmtPid pt i.prev}/{fmtPid pt i.next}")
+
+/-- the pointer-level model run alongside: same commands, same ledger input.  Returns the new pointer
+table, the new pointer iterator and the ledger after the call (`none` when the command does not touch
+the table). -/
+def pstep (cfg : HCfg) (isSet : Bool) (pm : Option PHash.PTable) (pit : Option PHash.PIter) (c : Cmd) (m : Mem) :
+    Option PHash.PTable × Option PHash.PIter × Option Mem :=
+  let key (n : Nat) : Option Nat := if n = 0 then none else some n
+  match c.op with
+  | "new" | "new_default" =>
+    let cap := if c.op == "new" then c.nat "cap" 16 else Gen.HASHTABLE_DEFAULT_CAPACITY
+    let tr : Triple := if c.op == "new" then .conf else .libc
+    if isSet then
+      -- the set header is allocated first and released when the table constructor fails
+      let a := m.allocT tr
+      if !a.1 then (none, none, some a.2) else
+      let r := PHash.PTable.new cfg cap tr a.2
+      match r.2.1 with
+      | none => (none, none, some (r.2.2.freeT tr))
+      | some t => (some t, none, some r.2.2)
+    else
+      let r := PHash.PTable.new cfg cap tr m
+      (r.2.1, none, some r.2.2)
+  | "destroy" | "destroy_table" =>
+    match pm with
+    | none => (none, none, none)
+    | some t => (none, none, some (if isSet then (t.destroy m).freeT t.triple else t.destroy m))
+  | _ =>
+  match pm with
+  | none => (none, none, none)
+  | some t =>
+    match c.op with
+    | "add" =>
+      let r := t.add cfg (key (c.arg 0)) (if isSet then 1 else c.arg 1) m
+      (some r.2.1, none, some r.2.2)
+    | "get" => (some t, pit, some (t.get cfg (key (c.arg 0)) m).2.2)
+    | "contains_key" | "contains" => (some t, pit, some (t.containsKey cfg (key (c.arg 0)) m).2)
+    | "remove" =>
+      let r := t.remove cfg (key (c.arg 0)) m
+      (some r.2.2.1, none, some r.2.2.2)
+    | "remove_all" =>
+      let r := t.removeAll m
+      (some r.1, none, some r.2)
+    | "it_new" =>
+      let r := t.iterInit m
+      (some t, some r.1, some r.2)
+    | "it_next" =>
+      match pit with
+      | none => (some t, none, none)
+      | some it =>
+        let r := t.iterNext it m
+        (some t, some r.2.2.1, some r.2.2.2)
+    | "it_remove" =>
+      match pit with
+      | none => (some t, none, none)
+      | some it =>
+        let r := t.iterRemove cfg it m
+        (some r.2.2.1, some r.2.2.2.1, some r.2.2.2.2)
+    | _ => (some t, pit, none)
+
+/-- does the pointer-level model agree with the bucket-list model? (shape, content read off the heap,
+iterator, ledger) -/
+def pAgree (t : Option HashTable) (it : Option HIter) (pm : Option PHash.PTable) (pit : Option PHash.PIter)
+    (pmem : Option Mem) (mem : Mem) : Bool :=
+  (match pmem with | none => true | some pm' => decide (pm' = mem)) &&
+  (match t, pm with
+   | none, none => true
+   | some t, some pt =>
+     pt.shapeOk && decide (pt.toTable = t) &&
+     (match it, pit with
+      | none, none => true
+      | some i, some pi => decide (pt.toIter pi = i)
+      | _, _ => false)
+   | _, _ => false)
 
 /-- derived arrays: slot number, array -/
 def fmtDarrObs (ds : List (Nat × List Nat)) : String :=
@@ -136,6 +232,10 @@ structure Sess where
   darr   : List (Nat × DArr) := []
   sdarr  : List (Nat × List Nat) := []
   mem    : Mem := {}
+  /-- pointer-level model run alongside, its iterator, and whether it agreed on this step -/
+  pmodel : Option PHash.PTable := none
+  piter  : Option PHash.PIter := none
+  pmem   : Option Mem := none
   /-- `obs=sparse`: content is printed only by the `observe` op; `quiet` = this line prints none -/
   sparse : Bool := false
   quiet  : Bool := false
@@ -153,10 +253,11 @@ def obsS (s : Sess) : String :=
 def physM (s : Sess) (ord : Option (List Nat)) : String :=
   (match s.model with
    | none => "-"
-   | some t => fmtTable t s.iter) ++ fmtDarrPhys s.darr ++
+   | some t => fmtTable t s.iter s.pmodel s.piter) ++ fmtDarrPhys s.darr ++
   (match ord with | none => "" | some l => s!" ord={fmtList l}")
 def invM (s : Sess) : Bool :=
-  (match s.model with | none => true | some t => decide (t.Inv s.cfg)) && s.darr.all (fun d => decide d.2.Inv)
+  (match s.model with | none => true | some t => decide (t.Inv s.cfg)) && s.darr.all (fun d => decide d.2.Inv) &&
+  pAgree s.model s.iter s.pmodel s.piter s.pmem s.mem
 
 def lines (s : Sess) (hdS hdM : String) (ord : Option (List Nat) := none) : Sess × String × String :=
   (s, s!"S {hdS} {obsS s}", s!"M {hdM} {obsM s} | {physM s ord} | {fmtMem s.mem} | {fmtFlags (invM s) s.mem}")
@@ -170,7 +271,10 @@ def step (s : Sess) (c : Cmd) : Sess × String × String :=
   let m := s.mem.begin c.sched
   let isNew := c.op == "new" || c.op == "new_default"
   let sparse := if isNew then c.str "obs" == some "sparse" else s.sparse
-  let s := { s with sparse := sparse, quiet := sparse && c.op != "observe" }
+  let pcfg := if c.op == "new" then mkCfg c else if c.op == "new_default" then defaultCfg else s.cfg
+  let (pm, pit, pmem) := pstep pcfg false s.pmodel s.piter c m
+  let pmem := if c.op == "destroy" then pmem.map (fun m => s.darr.foldl (fun m d => d.2.destroy m) m) else pmem
+  let s := { s with sparse := sparse, quiet := sparse && c.op != "observe", pmodel := pm, piter := pit, pmem := pmem }
   let slot := slotOf c
   match c.op with
   | "new" | "new_default" =>
@@ -178,7 +282,7 @@ def step (s : Sess) (c : Cmd) : Sess × String × String :=
     let cap := if c.op == "new" then c.nat "cap" 16 else Gen.HASHTABLE_DEFAULT_CAPACITY
     let (st, t, m) := HashTable.new cfg cap (if c.op == "new" then .conf else .libc) m
     let (sst, sp) := if c.fired > 0 then (Stat.errAlloc, none) else (Stat.ok, some Spec.Map.empty)
-    lines { cfg := cfg, model := t, spec := sp, mem := m, darr := s.darr, sdarr := s.sdarr, sparse := s.sparse, quiet := s.quiet } (fmtStat sst) (fmtStat st)
+    lines { cfg := cfg, model := t, spec := sp, mem := m, darr := s.darr, sdarr := s.sdarr, sparse := s.sparse, quiet := s.quiet, pmodel := s.pmodel, piter := s.piter, pmem := s.pmem } (fmtStat sst) (fmtStat st)
   | "arr_add" | "arr_destroy" =>
     match s.darr.find? (·.1 == slot), s.sdarr.find? (·.1 == slot) with
     | some (_, a), some (_, l) =>
@@ -192,7 +296,7 @@ def step (s : Sess) (c : Cmd) : Sess × String × String :=
   | "destroy" =>
     let m := match s.model with | some t => t.destroy m | none => m
     let m := s.darr.foldl (fun m d => d.2.destroy m) m
-    lines { cfg := s.cfg, mem := m, sparse := s.sparse, quiet := s.quiet } "st=-" "st=-"
+    lines { cfg := s.cfg, mem := m, sparse := s.sparse, quiet := s.quiet, pmodel := s.pmodel, piter := s.piter, pmem := s.pmem } "st=-" "st=-"
   | _ =>
   match s.model, s.spec with
   | some t, some sp =>
